@@ -357,11 +357,30 @@ func faults(c *vk.Ctx, depth int) {
 			old := fileBytes()
 			errNoFault := apply(o)
 			newb := fileBytes()
-			var opErr error
+			var opErr, err2 error
+			var mid string
+			var midSet bool
+			var follow int
+			var firstLog []string
 			body := func() {
+				midSet, follow = false, 0
 				verifrt.Quiet(func() { setup(h) })
 				vos.Reset()
 				opErr = apply(o)
+				mid, midSet = fileBytes(), true
+				firstLog = append([]string(nil), vos.Log...)
+				// The request failed but pprof lives on (the web UI keeps serving): every next request in the
+				// same process must act on what the file holds, not on what the failed request left in memory.
+				faulted := false
+				for _, l := range firstLog {
+					faulted = faulted || strings.Contains(l, "->")
+				}
+				if faulted {
+					follow = verifrt.Choose(len(alphabet)+1, verifrt.KFree, "next request in the same process")
+					if follow > 0 {
+						verifrt.Quiet(func() { err2 = apply(alphabet[follow-1]) })
+					}
+				}
 			}
 			e := &verifrt.Explorer{Bounds: verifrt.Bounds{verifrt.KFault: 1}, Body: body, NoSched: true}
 			nfaults := 0
@@ -369,8 +388,12 @@ func faults(c *vk.Ctx, depth int) {
 				c.Eval()
 				c.Trace(1)
 				got := fileBytes()
+				log := vos.Log
+				if midSet {
+					got, log = mid, firstLog
+				}
 				fault := ""
-				for _, l := range vos.Log {
+				for _, l := range log {
 					if strings.Contains(l, "->") {
 						fault = l
 					}
@@ -393,6 +416,25 @@ func faults(c *vk.Ctx, depth int) {
 						c.Violationf("harness/fault-free-run-differs", w, "got %q want %q", got, newb)
 					}
 					return true
+				}
+				if follow > 0 && midSet && len(x.Panics) == 0 && x.Hung == "" && x.Diverged == "" {
+					o2 := alphabet[follow-1]
+					w.Op = o.String() + " [" + fault + "] then, in the same process, " + o2.String()
+					if got != old && got != newb {
+						return true // reported by the execution without a follow-up
+					}
+					after, raw2, rerr := readState()
+					base := stateOf(got)
+					want, okm := modelApply(base, o2, func(s string) string { return cfgRawGlobal[s] })
+					if rerr != nil {
+						c.Violationf("durability/io-error/next-request-corrupts-file", w, "%v\n %.200q", rerr, raw2)
+					} else if okm && (err2 != nil || fmt.Sprint(after) != fmt.Sprint(want)) {
+						c.Violationf("durability/io-error/next-request-wrong-result", w, "err=%v\n file after the failed request: %.200q\n want %v\n got  %v", err2, got, want, after)
+					} else if !okm && fmt.Sprint(after) != fmt.Sprint(base) {
+						c.Violationf("durability/io-error/next-request-wrong-result", w, "the request is an error for the reference, yet the settings changed\n want %v\n got  %v", base, after)
+					}
+					c.Count("fault-then-next-request", 1)
+					return !c.Expired()
 				}
 				nfaults++
 				kind := "io-error"
@@ -669,4 +711,25 @@ func foreignFiles(c *vk.Ctx, cfgRaw func(string) string) {
 			c.Nontrivial("foreign:" + content + o.String())
 		}
 	}
+}
+
+// stateOf parses settings file contents ("<absent>" = no file) with the reference reader.
+func stateOf(raw string) []entry {
+	if raw == "<absent>" {
+		return nil
+	}
+	var s struct {
+		Configs []map[string]any `json:"configs"`
+	}
+	if json.Unmarshal([]byte(raw), &s) != nil {
+		return nil
+	}
+	var list []entry
+	for _, c := range s.Configs {
+		name, _ := c["name"].(string)
+		delete(c, "name")
+		cb, _ := json.Marshal(c)
+		list = append(list, entry{name, string(cb)})
+	}
+	return list
 }
